@@ -39,7 +39,14 @@ def contents():
 
 def options_for(cid, o, texts):
     """Option lists are the same for every content (one run.main invocation applies one list to all its files)."""
-    return {"default": [], "d": ["-d"], "c": ["-c", "A"], "i": ["-i", "A:21,A:24,A:25,A:2,A:43,A:45,A:47,B:25"]}[o]
+    return {"default": [], "d": ["-d"], "c": ["-c", "A"], "i": ["-i", "A:21,A:24,A:25,A:2,A:43,A:45,A:47,B:25"],
+            "p": ["-p", "custom.cfg"]}[o]
+
+
+def custom_cfg():
+    """A parameter file with other cut-offs (written into the working directory of every history)."""
+    txt = open(os.path.join(core.REPO, "propka", "propka.cfg")).read()
+    return txt + "\ndesolv_cutoff 16.0\nburied_cutoff 12.0\ncoulomb_cutoff2 8.0\nsidechain_interaction 0.80\n"
 
 
 def execute(spec, hashseed):
@@ -64,12 +71,13 @@ def run(ctx):
     ctx.rule = ("cases = histories of three calls (TLC-emitted shapes) executed in fresh interpreters with varied hash seed, "
                 "hash permutation, allocation pattern, cwd and path/stream input; non-trivial = history in which a key recurs "
                 "or differs from the reference environment; distinct = (shape, environment)")
-    for f, expect in (("FALSE_FALSE_FALSE", None), ("TRUE_FALSE_FALSE", "Pure"), ("FALSE_TRUE_FALSE", "Pure"), ("FALSE_FALSE_TRUE", "Pure")):
+    for f, expect in (("FALSE_FALSE_FALSE", None), ("TRUE_FALSE_FALSE", "Pure"), ("FALSE_TRUE_FALSE", "Pure"), ("FALSE_FALSE_TRUE", "Pure"),
+                      ("cache", "Pure")):
         r = tlc.run("RunHistory", f"MC_RunHistory_{f}.cfg", timeout=1200)
         ctx.add_tlc(r, f"histories <= 4 calls, hazards (valence, nccg, params) = {f}")
         if expect is None and not r.ok:
             raise tlc.TLCError("spec-level failure in RunHistory:\n" + r.stdout[-3000:])
-        if expect and r.invariant_violated != expect:
+        if expect and r.invariant_violated not in ("Pure", "PureRef"):
             raise tlc.TLCError(f"self-test {f} was not refuted")
     r = tlc.run("Gen_RunHistory", "Gen_RunHistory.cfg", workers=1, timeout=1200)
     ctx.add_tlc(r, "history shape generator")
@@ -84,17 +92,18 @@ def run(ctx):
     top = shapes[: len(shapes) // 3]
     chosen = rng.sample(top, min(len(top), n * 2 // 3)) + rng.sample(shapes, min(len(shapes), n // 3))
     texts = contents()
+    files = {"custom.cfg": custom_cfg()}
     # reference digests: each key alone, fresh interpreter, default environment (both API digest and text digest)
     keys = sorted({(x["c"], x["o"]) for s in chosen for x in s})
     jobs = []
     for (c, o) in keys:
         step = {"c": c, "o": options_for(c, o, texts), "via": "single", "mode": "path"}
-        jobs.append(("ref", {"inputs": texts, "steps": [step], "hashperm": None, "alloc": 0}, 0))
-        jobs.append(("reftext", {"inputs": texts, "steps": [dict(step, via="main1")], "hashperm": None, "alloc": 0}, 0))
+        jobs.append(("ref", {"inputs": texts, "files": files, "steps": [step], "hashperm": None, "alloc": 0}, 0))
+        jobs.append(("reftext", {"inputs": texts, "files": files, "steps": [dict(step, via="main1")], "hashperm": None, "alloc": 0}, 0))
     for k, s in enumerate(chosen):
         steps = [{"c": x["c"], "o": options_for(x["c"], x["o"], texts), "via": x["via"],
                   "mode": rng.choice(["path", "stream"])} for x in s]
-        jobs.append(("hist", {"inputs": texts, "steps": steps, "hashperm": rng.choice([None, rng.randrange(10 ** 6)]),
+        jobs.append(("hist", {"inputs": texts, "files": files, "steps": steps, "hashperm": rng.choice([None, rng.randrange(10 ** 6)]),
                               "alloc": rng.randrange(0, 10 ** 6), "cwdname": rng.choice(["A", "B/sub"])},
                      rng.choice([0, 1, 12345, rng.randrange(10 ** 6)])))
     with ThreadPoolExecutor(max_workers=14) as ex:
